@@ -541,7 +541,18 @@ func (g *gen) unit(i int) (string, UnitTruth) {
 			truth.ExtendsFull = "java.util.ArrayList"
 			u.used["ArrayList"] = true
 		}
-		if rapid.IntRange(0, 4).Draw(t, "implements") == 0 {
+		var ifaces []int
+		for _, c := range chosen {
+			if g.sigs[c].kind == "Interface" {
+				ifaces = append(ifaces, c)
+			}
+		}
+		if len(ifaces) > 0 && rapid.IntRange(0, 2).Draw(t, "implementsProject") > 0 {
+			ic := ifaces[0]
+			decl += " implements " + g.sigs[ic].name
+			truth.Implements = append(truth.Implements, g.sigs[ic].name)
+			u.used[g.sigs[ic].name] = true
+		} else if rapid.IntRange(0, 4).Draw(t, "implements") == 0 {
 			decl += " implements Runnable"
 			truth.Implements = append(truth.Implements, "Runnable")
 			if rapid.Bool().Draw(t, "implements2") {
